@@ -25,12 +25,12 @@ CHECKS = {
          "All sequences of visibility calls, lifecycle operations and ticks within the bound are executed; every message is scanned for payloads of entities hidden from its recipient, is_visible is compared with the last call, and a second client is compared with a twin execution.", "§5 C08"),
  "C09": ("stateless deviation-bounded exhaustive exploration of real Apps with disconnect / server-stop injection at every round (crash-point enumeration)",
          "A client disconnect or server stop is injected at every round of every history within the bound, with traffic held in flight or buffered by earlier deviations; after reconnect the per-frame confirmed-tick oracle, the session-aware recipient oracle and convergence must hold and no panic may occur.", "§5 C09"),
- "C13": ("exhaustive enumeration of operation sequences on one real App (all configurations, status-change points, emission points, event-rotation regimes)",
-         "Every sequence of <= r operations (server start/stop, client status changes, emissions in every mode) is executed on a real App in the full and the dedicated build; per event the number of local observations and wire sends must match the configuration, never twice.", "§5 C13"),
+ "C13": ("exhaustive enumeration of operation sequences on one real App (all configurations, status-change points, emission points, event-rotation regimes), plus all emit/close histories of two real Apps with the example backend over loopback TCP",
+         "Every sequence of <= r operations (server start/stop, client status changes, emissions in every mode) is executed on a real App in the full and the dedicated build; per event the number of local observations and wire sends must match the configuration, never twice. With the real transport: every history of <= 3/4 frames over emit / close / both on either side, exactly one path per event.", "§5 C13"),
  "C16": ("stateless deviation-bounded exhaustive exploration of real Apps with pre-spawn mapping operations; per-frame adoption oracle",
          "All timings of the mapping relative to spawn, marker and visibility, with extra traffic, client-side despawn and a second client, under reliable-channel delays within the bound; one client entity per server entity and adoption are checked after every client frame.", "§5 C16"),
- "C06": ("exhaustive enumeration of client-to-server byte strings (all <= 2/3-byte strings + varint-boundary grammar) against a real server App, in rlimit-ed worker subprocesses with an allocation recorder",
-         "Every input of the enumerated sets is injected on every client channel from unauthorized, authorized and disconnecting senders; the server must neither panic nor abort nor allocate out of proportion, and a well-behaved client must keep converging.", "§5 C06"),
+ "C06": ("exhaustive enumeration of client-to-server byte strings (all <= 2/3-byte strings + varint-boundary grammar + structure-aware mutations of genuine messages) against a real server App, in rlimit-ed worker subprocesses with an allocation recorder",
+         "Every input of the enumerated sets is injected on every client channel from unauthorized, authorized and disconnecting senders; the server must neither panic nor abort nor allocate out of proportion, a genuine event / acknowledgement of a well-behaved client queued behind it in the same frame must still take effect, and that client must keep converging.", "§5 C06"),
  "C10": ("exhaustive enumeration of payload-size tuples and relationship-graph histories on real Apps; every ordered subset of a tick's mutate messages delivered (split-delivery stage)",
          "For every size tuple around the packing boundaries and every relationship history within the bound, all subsets / orders of one tick's mutate messages are delivered in separate re-executions; per-entity and per-group all-or-nothing and the size clauses are checked.", "§5 C10"),
  "C11": ("stateless deviation-bounded exhaustive exploration of real Apps with a wire model of mutate messages and acknowledgements; per-tick wire-scan oracle, quiescence check",
